@@ -9,6 +9,7 @@ pub mod c10;
 pub mod c12;
 pub mod c13;
 pub mod c14;
+pub mod c15;
 
 use crate::engine::Prop;
 
@@ -25,6 +26,7 @@ pub fn get(id: &str) -> Option<Box<dyn Prop>> {
     "C12" => Some(Box::new(c12::C12)),
     "C13" => Some(Box::new(c13::C13)),
     "C14" => Some(Box::new(c14::C14)),
+    "C15" => Some(Box::new(c15::C15)),
     _ => None,
   }
 }
